@@ -40,6 +40,7 @@ type opTrack struct {
 	lastStatus operator.OpStatus
 	started    bool
 	left       bool
+	leftAt     int // step at which the monitor saw it leave the running set
 	desc       string
 	region     uint64
 	// model facts at admission
@@ -324,8 +325,21 @@ func (ow *opWorld) applyCmd(resp *pdpb.RegionHeartbeatResponse) {
 		// a command that does not belong to the operator currently running for the region (a late command of an
 		// earlier, already replaced or cancelled operator) is a foreign change from that operator's point of view
 		own := false
+		// a command PD sent while an operator that has ended since (replaced, cancelled) was running is that operator's
+		// command, even if the operator running now contains the same step further down its list
+		fromEnded := false
 		for _, t := range ow.opOrder {
-			if !t.left && t.region == rec.region && cmdMatchesOp(resp, t.op) && ow.cmdSent[cmdKey(resp)] > t.admitAfter {
+			if t.left && t.region == rec.region && cmdMatchesOp(resp, t.op) && ow.cmdSent[cmdKey(resp)] > t.admitAfter && ow.cmdSent[cmdKey(resp)] <= t.leftAt {
+				fromEnded = true
+			}
+		}
+		for _, t := range ow.opOrder {
+			if fromEnded {
+				break
+			}
+			// ... and a step far down the operator's list is not "its own step" yet: PD accounts for the finished and the
+			// current step only (one step may have needed no command)
+			if idx := cmdMatchIndex(resp, t.op); !t.left && t.region == rec.region && idx >= 0 && idx <= t.applied+1 && ow.cmdSent[cmdKey(resp)] > t.admitAfter {
 				own = true
 				ow.cmds[len(ow.cmds)-1].owner = t
 				t.applied++
@@ -415,6 +429,7 @@ func (ow *opWorld) monitorOps() {
 		}
 		if !inSet[t.op] {
 			t.left = true
+			t.leftAt = ow.RC.S.Step
 			ow.RC.Extra["operators_ended_"+operator.OpStatusToString(t.op.Status())]++
 			if ow.onOpEnd != nil {
 				ow.onOpEnd(t)
@@ -542,60 +557,65 @@ func (t *opTrack) stepsText() string {
 // cancelStepHint: the number of own commands applied before the end (diagnostics only).
 func (t *opTrack) cancelStepHint() int { return t.applied }
 
-func cmdMatchesOp(resp *pdpb.RegionHeartbeatResponse, op *operator.Operator) bool {
+// cmdMatchIndex returns the index of the first step of op the command can belong to (-1: none).
+func cmdMatchIndex(resp *pdpb.RegionHeartbeatResponse, op *operator.Operator) int {
 	for i := 0; i < op.Len(); i++ {
 		switch st := op.Step(i).(type) {
 		case operator.AddPeer:
 			if cp := resp.GetChangePeer(); cp != nil && cp.GetChangeType().String() == "AddNode" && cp.GetPeer().GetId() == st.PeerID {
-				return true
+				return i
 			}
 		case operator.AddLightPeer:
 			if cp := resp.GetChangePeer(); cp != nil && cp.GetChangeType().String() == "AddNode" && cp.GetPeer().GetId() == st.PeerID {
-				return true
+				return i
 			}
 		case operator.AddLearner:
 			if cp := resp.GetChangePeer(); cp != nil && cp.GetChangeType().String() == "AddLearnerNode" && cp.GetPeer().GetId() == st.PeerID {
-				return true
+				return i
 			}
 		case operator.AddLightLearner:
 			if cp := resp.GetChangePeer(); cp != nil && cp.GetChangeType().String() == "AddLearnerNode" && cp.GetPeer().GetId() == st.PeerID {
-				return true
+				return i
 			}
 		case operator.PromoteLearner:
 			if cp := resp.GetChangePeer(); cp != nil && cp.GetChangeType().String() == "AddNode" && cp.GetPeer().GetId() == st.PeerID {
-				return true
+				return i
 			}
 		case operator.RemovePeer:
 			if cp := resp.GetChangePeer(); cp != nil && cp.GetChangeType().String() == "RemoveNode" && cp.GetPeer().GetStoreId() == st.FromStore {
-				return true
+				return i
 			}
 		case operator.TransferLeader:
 			if tl := resp.GetTransferLeader(); tl != nil && tl.GetPeer().GetStoreId() == st.ToStore {
-				return true
+				return i
 			}
 		case operator.ChangePeerV2Enter:
 			if v2 := resp.GetChangePeerV2(); v2 != nil && len(v2.GetChanges()) == len(st.PromoteLearners)+len(st.DemoteVoters) && len(v2.GetChanges()) > 0 {
-				return true
+				return i
 			}
 		case operator.ChangePeerV2Leave:
 			if v2 := resp.GetChangePeerV2(); v2 != nil && len(v2.GetChanges()) == 0 {
-				return true
+				return i
 			}
 		case operator.MergeRegion:
 			if resp.GetMerge() != nil {
-				return true
+				return i
 			}
 		case operator.SplitRegion:
 			if resp.GetSplitRegion() != nil {
-				return true
+				return i
 			}
 		case operator.DemoteFollower:
 			if cp := resp.GetChangePeer(); cp != nil && cp.GetChangeType().String() == "AddLearnerNode" && cp.GetPeer().GetId() == st.PeerID {
-				return true
+				return i
 			}
 		}
 	}
-	return false
+	return -1
+}
+
+func cmdMatchesOp(resp *pdpb.RegionHeartbeatResponse, op *operator.Operator) bool {
+	return cmdMatchIndex(resp, op) >= 0
 }
 
 // epochServedBetween tells whether PD served (ver, conf) for the region at some instant of the steps (from, to].
